@@ -131,3 +131,19 @@ Theorem C19_memo_pull_total_refuted :
   exists progs sched, existsb t_panic (m_thr (mrun (minit progs) sched)) = true.
 Proof. exact memo_pull_panic_refuted. Qed.
 Print Assumptions C19_memo_pull_total_refuted.
+
+(** OPEN, design limitation F-C19-f: `Plain::try_new` takes the value lock with the
+    non-blocking `try_read`; a read that coincides with a write on another thread yields `None`
+    and `get()` panics ("already been disposed"), which ends the reading effect's task *)
+Theorem C19_signal_read_total_refuted : exists sched, r_r (rrun rinit sched) = RPanic.
+Proof. exact signal_read_total_refuted. Qed.
+Print Assumptions C19_signal_read_total_refuted.
+
+(** … and only then: a read outside the write's critical section returns the value before or
+    after the write *)
+Theorem C19_signal_read_total_except_known :
+  forall sched, read_under_write rinit sched = false ->
+    r_r (rrun rinit sched) <> RPanic
+    /\ forall v, r_r (rrun rinit sched) = RDone v -> (v = 1 \/ v = 2)%Z.
+Proof. exact signal_read_total_except_contended. Qed.
+Print Assumptions C19_signal_read_total_except_known.
